@@ -401,6 +401,12 @@ class ModuleVistor(NodeVisitor):
                 current.report("cannot resolve re-exported name :"
                                         f'{modname}.{origin_name}', thresh=1)
             else:
+                ancestors: List[model.Documentable] = [current]
+                while ancestors[-1].parent is not None:
+                    ancestors.append(ancestors[-1].parent)
+                if ob in ancestors:
+                    # A module cannot be moved into itself or into one of its own modules.
+                    return False
                 if origin_module.all is None or origin_name not in origin_module.all:
                     self.system.msg(
                         "astbuilder",
